@@ -33,13 +33,25 @@ DISPATCHERS = {
 }
 
 
-def check_exits(ctx, prop):
+def check_exits(ctx, prop, extra=()):
     ref = normal.reference().get('functions', {})
-    for spec in DISPATCHERS[prop]:
-        fn = ctx.repo.fn(spec)
+    specs = list(DISPATCHERS[prop])
+    for k in extra:           # helpers reached through the call graph (run.py passes the closure of the property's anchored functions)
+        s_ = '%s:%s%s' % (k[0], (k[1] + '.') if k[1] else '', k[2])
+        if s_ not in specs and s_ in ref and not k[2].startswith('__repr') and k[0] not in ('_logger', '_file', '_tree_repr', '_encode', '_parquet'):
+            specs.append(s_)
+    for spec in specs:
+        try:
+            fn = ctx.repo.fn(spec)
+        except AnalysisError:
+            if spec in DISPATCHERS[prop]:
+                raise
+            continue
         key = fn.construct
         r = ref.get(key)
         if r is None or 'exits' not in r:
+            if spec not in DISPATCHERS[prop]:
+                continue
             raise AnalysisError('no reference exits for %s' % key)
         allowed = set(r['exits'])
         loc = set(normal.local_names(fn.node))
